@@ -5,7 +5,7 @@ open Io
 let err_name = function
   | E_channel -> "channel" | E_ni_flat_area_amp -> "ni_flat_area_amp" | E_ni_amp_area -> "ni_amp_area"
   | E_must_supply -> "must_supply" | E_flat_time_needs -> "flat_time_needs" | E_min_duration -> "min_duration"
-  | E_dur_short_rise -> "dur_short_rise" | E_not_possible -> "not_possible" | E_must_rise -> "must_rise"
+  | E_dur_short_rise -> "dur_short_rise" | E_not_possible -> "not_possible" | E_must_rise -> "must_rise" | E_dur_inconsistent -> "dur_inconsistent"
   | E_ni_flat_area_dur -> "ni_flat_area_dur"
   | E_area_or_duration -> "area_or_duration" | E_timing -> "timing" | E_amp -> "amp" | E_slew_rise -> "slew_rise"
   | E_slew_fall -> "slew_fall" | E_unbound -> "unbound" | E_zerodiv -> "zerodiv" | E_type -> "type"
